@@ -231,7 +231,7 @@ impl ProcfsHandle {
         syscalls::open_tree(
             syscalls::AT_FDCWD,
             "/proc",
-            OpenTreeFlags::OPEN_TREE_CLONE | flags,
+            OpenTreeFlags::OPEN_TREE_CLONE | OpenTreeFlags::OPEN_TREE_CLOEXEC | flags,
         )
         .map_err(|err| {
             ErrorImpl::RawOsError {
